@@ -48,6 +48,9 @@ C17_Settings == At("frame") /\ E.show_settings => E.item = -1 \/ E.item < E.rows
 ColIds(f) == {f.cols[i].id : i \in 1..Len(f.cols)}
 C17_Columns == (At("frame") /\ prev.e = "frame") => Len(E.cols) = Len(prev.cols) /\ ColIds(E) = ColIds(prev) /\ Cardinality(ColIds(E)) = Len(E.cols)
 
+\* the addresses-per-hop limit is "all" or at least one (the host cell clamps the address count to 1 .. limit)
+C17_HostsLimit == At("frame") => E.max_addrs = -1 \/ E.max_addrs >= 1
+
 \* a draw or command that does not complete (the harness watchdog saw no progress and recorded where the
 \* main thread was): F24 is the layout solver of the ratatui dependency (cassowary) cycling on the
 \* over-constrained column widths of the hops table - nondeterministic (it depends on the process's hash
